@@ -42,6 +42,7 @@ Definition reachP (H : list hentry) (md : omode) (n m : nat) : Prop :=
   | MSection => n = m
   | MFree => (n <= m)%nat
   | MRoTx => (n <= m)%nat /\ Forall (fun e => fst e = KDirect) (firstn (m - n) (skipn n H))
+  | MEach => True
   end.
 
 (* an explanation of the reads rs for a reader whose previous read saw n writes: a prefix
@@ -77,6 +78,7 @@ Proof.
   - rewrite andb_true_iff, Nat.leb_le, forallb_forall, Forall_forall.
     split; intros [A B]; (split; [exact A|]); intros e He; apply is_direct_iff, B, He.
   - apply Nat.leb_le.
+  - split; reflexivity.
 Qed.
 
 Lemma in_cand_range : forall lo hi m, In m (cand_range lo hi) <-> (lo <= m <= hi)%nat.
@@ -207,6 +209,8 @@ Proof.
   - destruct (mem_nat r (ro_open s)); [discriminate|]. injection E as <-. exact I.
   - destruct (mem_nat r (ro_open s) && obeq v (get (eng s) k)); [|discriminate].
     injection E as <-. exact I.
+  - destruct (mem_nat r (ro_open s) && obs_eqb vs (map (get (eng s)) ks)); [|discriminate].
+    injection E as <-. exact I.
   - destruct (mem_nat r (ro_open s)); [|discriminate]. injection E as <-. exact I.
   - injection E as <-. exact I.
   - destruct (iter_lookup i (iters s)) as [it|]; [|discriminate].
@@ -226,6 +230,8 @@ Proof.
   - destruct (obs_eqb vs (map (get (eng s)) ks)); [|discriminate]. injection E as <-. reflexivity.
   - destruct (mem_nat r (ro_open s)); [discriminate|]. injection E as <-. reflexivity.
   - destruct (mem_nat r (ro_open s) && obeq v (get (eng s) k)); [|discriminate].
+    injection E as <-. reflexivity.
+  - destruct (mem_nat r (ro_open s) && obs_eqb vs (map (get (eng s)) ks)); [|discriminate].
     injection E as <-. reflexivity.
   - destruct (mem_nat r (ro_open s)); [|discriminate]. injection E as <-. reflexivity.
   - injection E as <-. reflexivity.
@@ -299,6 +305,7 @@ Theorem no_partial_view : forall c pre l post s1,
   match l with
   | LRead _ ks vs => vs = map (spec_get (firstn n (hwrites H))) ks
   | LRoGet _ k v => v = spec_get (firstn n (hwrites H)) k
+  | LRoScan _ ks vs => vs = map (spec_get (firstn n (hwrites H))) ks
   | _ => True
   end.
 Proof.
@@ -315,13 +322,16 @@ Proof.
   - destruct (mem_nat r (ro_open s) && obeq v (get (eng s) k)) eqn:O; [|discriminate].
     apply andb_true_iff in O. destruct O as (_ & O). apply obeq_true_iff in O. rewrite O.
     apply (get_at s h _ _ k I L M).
+  - destruct (mem_nat r (ro_open s) && obs_eqb vs (map (get (eng s)) ks)) eqn:O; [|discriminate].
+    apply andb_true_iff in O. destruct O as (_ & O). apply obs_eqb_true_iff in O. rewrite O.
+    apply map_ext. intros k. apply (get_at s h _ _ k I L M).
 Qed.
 
 (* ---------- observations of one reader over a stretch of the trace ---------- *)
 
 Lemma reach_refl : forall H md n, reachP H md n n.
 Proof.
-  intros H md n. destruct md; cbn [reachP]; [reflexivity| |lia].
+  intros H md n. destruct md; cbn [reachP]; [reflexivity| |lia|exact Logic.I].
   split; [lia|]. replace (n - n)%nat with 0%nat by lia. constructor.
 Qed.
 
@@ -343,7 +353,7 @@ Qed.
 
 Lemma reach_trans : forall H md a b c, reachP H md a b -> reachP H md b c -> reachP H md a c.
 Proof.
-  intros H md a b c. destruct md; cbn [reachP]; [congruence| |lia].
+  intros H md a b c. destruct md; cbn [reachP]; [congruence| |lia|auto].
   intros (L1 & F1) (L2 & F2). split; [lia|].
   rewrite (firstn_skipn_split _ H a b c) by lia. apply Forall_app. split; assumption.
 Qed.
@@ -478,6 +488,8 @@ Proof.
     apply mem_nat_in. right. apply mem_nat_in. exact Ps.
   - destruct (mem_nat r0 (ro_open s) && obeq v (get (eng s) k)); [|discriminate].
     injection C as <-. exact Ps.
+  - destruct (mem_nat r0 (ro_open s) && obs_eqb vs (map (get (eng s)) ks)); [|discriminate].
+    injection C as <-. exact Ps.
   - destruct (mem_nat r0 (ro_open s)); [|discriminate]. injection C as <-. cbn [ro_open].
     apply mem_nat_remove; [|exact Ps]. intros ->. apply Hne. reflexivity.
   - injection C as <-. exact Ps.
@@ -566,6 +578,86 @@ Proof.
     exact (ro_writes_direct r s0 l s0' Ps C).
 Qed.
 
+(* every read of read-only transaction r, scans included *)
+Definition sel_ro_all (r : nat) (l : label) : list read :=
+  match l with
+  | LRoGet r' k v => if Nat.eqb r' r then [(k, v)] else []
+  | LRoScan r' ks vs => if Nat.eqb r' r then combine ks vs else []
+  | _ => []
+  end.
+
+Lemma sel_ro_all_correct : forall r s l s', cstep s l = Some s' ->
+  Forall (fun rd : read => get (eng s) (fst rd) = snd rd) (sel_ro_all r l).
+Proof.
+  intros r s l s' C. destruct l; cbn [sel_ro_all]; try constructor.
+  - exact (sel_ro_correct r s (LRoGet r0 k v) s' C).
+  - destruct (Nat.eqb r0 r); [|constructor]. cbn [cstep] in C.
+    destruct (mem_nat r0 (ro_open s) && obs_eqb vs (map (get (eng s)) ks)) eqn:O; [|discriminate].
+    apply andb_true_iff in O. destruct O as (_ & O). apply obs_eqb_true_iff in O. rewrite O.
+    apply combine_map_forall.
+Qed.
+
+Definition tx_only (r : nat) (l : label) : Prop := not_end r l /\ forall ops, l <> LApply ops.
+
+(* SNAPSHOT of a read-only transaction against transactional writers: while the transaction
+   is open no commit is enabled, so if no write bypasses the transaction lock (no LApply)
+   during it, ALL its reads — gets and scans — see one and the same prefix: a concurrent
+   transaction never observes a strict subset of a committed transaction *)
+Theorem ro_tx_snapshot_consistent : forall c r pre body post s1 lo hi,
+  crun (cinit c) (pre ++ LRoBegin r :: body ++ post) = Some s1 ->
+  Forall (tx_only r) body ->
+  (lo <= length (twrites (cinit c) pre) <= hi)%nat ->
+  twrites (cinit c) (pre ++ LRoBegin r :: body) = twrites (cinit c) pre /\
+  consistent (twrites (cinit c) (pre ++ LRoBegin r :: body ++ post))
+             (mkObs MSection lo hi (flat_map (sel_ro_all r) body)).
+Proof.
+  intros c r pre body post s1 lo hi E Fok Hw.
+  replace (pre ++ LRoBegin r :: body ++ post) with ((pre ++ [LRoBegin r]) ++ body ++ post) in *
+    by (rewrite <- app_assoc; reflexivity).
+  replace (pre ++ LRoBegin r :: body) with ((pre ++ [LRoBegin r]) ++ body)
+    by (rewrite <- app_assoc; reflexivity).
+  assert (Wp : forall s0, crun (cinit c) (pre ++ [LRoBegin r]) = Some s0 ->
+               twrites (cinit c) (pre ++ [LRoBegin r]) = twrites (cinit c) pre /\ ro_is_open r s0).
+  { intros s0 E0. rewrite crun_app in E0. destruct (crun (cinit c) pre) as [sp|] eqn:Ep; [|discriminate].
+    rewrite (twrites_app pre [LRoBegin r] (cinit c) sp Ep). cbn [twrites lwrites app].
+    split; [destruct (cstep sp (LRoBegin r)); rewrite app_nil_r; reflexivity|].
+    cbn [crun cstep] in E0. destruct (mem_nat r (ro_open sp)); [discriminate|].
+    injection E0 as <-. unfold ro_is_open. cbn [ro_open]. apply mem_nat_in. left. reflexivity. }
+  rewrite crun_app in E. destruct (crun (cinit c) (pre ++ [LRoBegin r])) as [s|] eqn:Ep; [|discriminate].
+  destruct (Wp s eq_refl) as (Wpre & Open).
+  rewrite crun_app in E. destruct (crun s body) as [s'|] eqn:Eb; [|discriminate].
+  rewrite (twrites_app (pre ++ [LRoBegin r]) (body ++ post) (cinit c) s Ep), (twrites_app body post s s' Eb).
+  rewrite (twrites_app (pre ++ [LRoBegin r]) body (cinit c) s Ep).
+  (* no write is acknowledged while the transaction is open *)
+  assert (NoW : forall bd s0 s0', ro_is_open r s0 -> Forall (tx_only r) bd -> crun s0 bd = Some s0' ->
+                twrites s0 bd = []).
+  { induction bd as [|l bd IH]; intros s0 s0' P0 F0 E0; [reflexivity|].
+    cbn [crun twrites] in *. destruct (cstep s0 l) as [s2|] eqn:C; [|discriminate].
+    inversion F0 as [|? ? (Hne & Hna) F0']; subst.
+    rewrite (IH s2 s0' (ro_open_step r s0 l s2 P0 Hne C) F0' E0), app_nil_r.
+    destruct l; cbn [lwrites]; try reflexivity.
+    - exfalso. apply (Hna ops). reflexivity.
+    - cbn [cstep] in C. unfold ro_is_open in P0. destruct (ro_open s0); [discriminate P0|discriminate C]. }
+  rewrite (NoW body s s' Open Fok Eb), app_nil_r. split; [exact Wpre|].
+  destruct (cinit_inv c) as (I0 & L0).
+  destruct (crun_inv (pre ++ [LRoBegin r]) (cinit c) s [] Ep I0 L0) as (h & I & L & M).
+  cbn [map app] in M. rewrite Wpre in *.
+  pose proof (reader_chain MSection (sel_ro_all r) (ro_is_open r) (tx_only r)) as RC.
+  specialize (RC (fun s0 l s0' _ C => sel_ro_all_correct r s0 l s0' C)).
+  specialize (RC (fun s0 l s0' P0 (O0 : tx_only r l) C => ro_open_step r s0 l s0' P0 (proj1 O0) C)).
+  assert (WR : forall s0 l s0' (Hpre X : list hentry), ro_is_open r s0 -> tx_only r l -> cstep s0 l = Some s0' ->
+               reachP (Hpre ++ lwrites s0 l ++ X) MSection (length Hpre) (length Hpre + length (lwrites s0 l))).
+  { intros s0 l s0' Hp X P0 (Hne & Hna) C. cbn [reachP].
+    assert (lwrites s0 l = []) as ->; [|cbn [length]; lia].
+    destruct l; cbn [lwrites]; try reflexivity.
+    - exfalso. apply (Hna ops). reflexivity.
+    - cbn [cstep] in C. unfold ro_is_open in P0. destruct (ro_open s0); [discriminate P0|discriminate C]. }
+  specialize (RC WR body s s' h (twrites (cinit c) pre) (twrites s' post) lo hi Open Fok Eb I L M).
+  rewrite (NoW body s s' Open Fok Eb) in RC. cbn [app length] in RC.
+  apply (chain_consistent _ MSection lo hi (length (twrites (cinit c) pre))).
+  apply RC; lia.
+Qed.
+
 (* reads inside one shared section: one prefix for all of them *)
 Theorem section_consistent : forall c cl ks vs pre post s1 lo hi,
   crun (cinit c) (pre ++ LRead cl ks vs :: post) = Some s1 ->
@@ -638,3 +730,150 @@ Module LtsExample.
     crun (cinit c0) [LCommit [(ka, Some [1]); (kb, Some [1])]; LRead 0 [ka; kb] [Some [1]; None]] = None.
   Proof. vm_compute. reflexivity. Qed.
 End LtsExample.
+
+(* ------------------------------------------------------------------------------------ *)
+(* Part C: the memtable snapshot does not isolate a running scan from later writes         *)
+(* (an OBSERVATION about the code, replayed against it by corpus/C03/iter-*.case; such a    *)
+(* scan is not an observer of C03, see the header of TxnAtomic.v)                           *)
+(* ------------------------------------------------------------------------------------ *)
+
+(* MemTable.nextSeqNum after the write with sequence number 1 is 2 and the iterator shows
+   entries with a number <= its snapshot: the batch stamped 2 is visible to an iterator
+   created before it. Read before and after that batch, the scan reports kb absent and kc
+   present. On an empty table the snapshot is 0, which means "unfiltered". *)
+Theorem iter_sees_later_write : exists c ka kb kc v1 v2 s,
+  crun (cinit c)
+    [LApply [(ka, Some v1)]; LIterNew 0; LIterRead 0 kb None;
+     LApply [(kb, Some v2); (kc, Some v2)]; LIterRead 0 kc (Some v2)] = Some s /\
+  (exists s', crun (cinit c)
+    [LIterNew 0; LIterRead 0 kb None;
+     LApply [(kb, Some v2); (kc, Some v2)]; LIterRead 0 kc (Some v2)] = Some s').
+Proof.
+  exists (mkCfg 4096 10), [97], [98], [99], [1], [2].
+  eexists. split; [vm_compute; reflexivity|]. eexists. vm_compute. reflexivity.
+Qed.
+
+(* after two writes nextSeqNum is still 2: there the snapshot is exact and the same scan is
+   not a run of the system — the behaviour depends on the parity of the write count *)
+Example iter_exact_when_even :
+  crun (cinit (mkCfg 4096 10))
+    [LApply [([97], Some [1])]; LApply [([100], Some [1])]; LIterNew 0; LIterRead 0 [98] None;
+     LApply [([98], Some [2]); ([99], Some [2])]; LIterRead 0 [99] (Some [2])] = None.
+Proof. vm_compute. reflexivity. Qed.
+
+(* ------------------------------------------------------------------------------------ *)
+(* Part D: the critical sections, from the Go source (coq/gen/TxnLocks.v)                  *)
+(* ------------------------------------------------------------------------------------ *)
+From Coq Require Import String.
+From KV Require Import TxnLocks.
+
+Module Locks.
+  Open Scope string_scope.
+
+  Fixpoint calls_of (f : string) (t : list (string * list string)) : list string :=
+    match t with
+    | [] => ["<missing>"]
+    | (g, l) :: r => if String.eqb f g then l else calls_of f r
+    end.
+
+  Definition has (e : string) (l : list string) : bool := existsb (String.eqb e) l.
+
+  (* any call that touches mutex m *)
+  Definition on_mutex (m : string) (e : string) : bool :=
+    has e [m ++ ".Lock"; m ++ ".Unlock"; m ++ ".RLock"; m ++ ".RUnlock"; m ++ ".TryLock"; m ++ ".TryRLock";
+           "defer " ++ m ++ ".Lock"; "defer " ++ m ++ ".Unlock"; "defer " ++ m ++ ".RLock";
+           "defer " ++ m ++ ".RUnlock"].
+
+  Definition starts_goroutine (e : string) : bool := String.prefix "go " e.
+
+  (* the body begins with m.Lock(); defer m.Unlock(), never touches m again and starts no
+     goroutine: everything after the first call runs inside one exclusive section of m *)
+  Definition exclusive_section (m : string) (l : list string) : bool :=
+    match l with
+    | a :: b :: rest =>
+        String.eqb a (m ++ ".Lock") && String.eqb b ("defer " ++ m ++ ".Unlock") &&
+        negb (existsb (on_mutex m) rest) && negb (existsb starts_goroutine rest)
+    | _ => false
+    end.
+
+  Definition shared_section (m : string) (l : list string) : bool :=
+    match l with
+    | a :: b :: rest =>
+        String.eqb a (m ++ ".RLock") && String.eqb b ("defer " ++ m ++ ".RUnlock") &&
+        negb (existsb (on_mutex m) rest) && negb (existsb starts_goroutine rest)
+    | _ => false
+    end.
+
+  (* x occurs, and no y occurs before the first x *)
+  Fixpoint before (x y : string) (l : list string) : bool :=
+    match l with
+    | [] => false
+    | e :: r => if String.eqb e x then true else if String.eqb e y then false else before x y r
+    end.
+
+  Definition untouched (m : string) (l : list string) : bool :=
+    negb (existsb (on_mutex m) l) && negb (has "<missing>" l).
+
+  Definition T := txn_calls.
+
+  (* Manager.ApplyBatch: WAL append, then every memtable insert, then the flush scheduling, all
+     inside one exclusive section of Manager.mu; the helpers it calls do not touch mu *)
+  Definition applybatch_ok : bool :=
+    let l := calls_of "Manager.ApplyBatch" T in
+    exclusive_section "m.mu" l && has "currentWAL.AppendBatch" l &&
+    before "currentWAL.AppendBatch" "m.memTablePool.Put" l &&
+    before "currentWAL.AppendBatch" "m.memTablePool.Delete" l &&
+    has "m.memTablePool.Put" l && has "m.memTablePool.Delete" l &&
+    before "m.memTablePool.Put" "m.scheduleFlush" l &&
+    untouched "m.mu" (calls_of "Manager.scheduleFlush" T) &&
+    untouched "m.mu" (calls_of "Manager.RetryOnWALRotating" T) &&
+    untouched "m.mu" (calls_of "Manager.getWAL" T).
+
+  Definition put_delete_ok : bool :=
+    let p := calls_of "Manager.Put" T in
+    let d := calls_of "Manager.Delete" T in
+    exclusive_section "m.mu" p && before "currentWAL.Append" "m.memTablePool.Put" p &&
+    exclusive_section "m.mu" d && before "currentWAL.Append" "m.memTablePool.Delete" d.
+
+  (* Manager.Get reads inside one shared section; GetIterator / GetRangeIterator capture the
+     tables and build the iterator inside one shared section *)
+  Definition readers_ok : bool :=
+    let g := calls_of "Manager.Get" T in
+    let i := calls_of "Manager.GetIterator" T in
+    let r := calls_of "Manager.GetRangeIterator" T in
+    shared_section "m.mu" g && has "m.memTablePool.Get" g &&
+    shared_section "m.mu" i && before "m.memTablePool.GetMemTables" "factory.CreateIterator" i &&
+    shared_section "m.mu" r && before "m.memTablePool.GetMemTables" "factory.CreateRangeIterator" r.
+
+  (* Commit applies the batch before it gives up the transaction lock; Rollback clears the
+     buffer; BeginTransaction takes the transaction lock in both modes *)
+  Definition tx_ok : bool :=
+    let c := calls_of "TransactionImpl.Commit" T in
+    let r := calls_of "TransactionImpl.Rollback" T in
+    let b := calls_of "Manager.BeginTransaction" T in
+    before "tx.storage.ApplyBatch" "tx.releaseWriteLock" c && has "tx.releaseWriteLock" c &&
+    has "tx.buffer.Operations" c &&
+    before "tx.buffer.Clear" "tx.releaseWriteLock" r && has "tx.releaseWriteLock" r &&
+    has "m.txLock.RLock" b && has "m.txLock.Lock" b.
+End Locks.
+
+Lemma locks_applybatch_exclusive : Locks.applybatch_ok = true.
+Proof. vm_compute. reflexivity. Qed.
+Lemma locks_put_delete_exclusive : Locks.put_delete_ok = true.
+Proof. vm_compute. reflexivity. Qed.
+Lemma locks_readers_shared : Locks.readers_ok = true.
+Proof. vm_compute. reflexivity. Qed.
+Lemma locks_tx_commit_under_txlock : Locks.tx_ok = true.
+Proof. vm_compute. reflexivity. Qed.
+
+(* the checks are not vacuous: a body that releases the lock between the log append and the
+   inserts, or inserts before it logs, fails them *)
+Example locks_reject_unlock_in_between :
+  Locks.exclusive_section "m.mu"
+    ["m.mu.Lock"; "defer m.mu.Unlock"; "currentWAL.AppendBatch"; "m.mu.Unlock"; "m.mu.Lock";
+     "m.memTablePool.Put"] = false.
+Proof. vm_compute. reflexivity. Qed.
+Example locks_reject_insert_first :
+  Locks.before "currentWAL.AppendBatch" "m.memTablePool.Put"
+    ["m.mu.Lock"; "defer m.mu.Unlock"; "m.memTablePool.Put"; "currentWAL.AppendBatch"] = false.
+Proof. vm_compute. reflexivity. Qed.
